@@ -3,6 +3,8 @@ import Driver.Codec
 import Driver.Conv
 import Driver.Pool
 import Driver.Str
+import Driver.Slice
+import Driver.Split
 import Driver.Search
 import Driver.Compare
 import Driver.Num
@@ -16,6 +18,8 @@ def dispatch (c : Case) : Verdict :=
   else if fam == "conv" || fam == "blk.conv" || fam == "reval" then Driver.Conv.handle c
   else if fam == "hist" || fam == "fault" then Driver.Pool.handle c
   else if fam == "shist" || fam == "sfault" then Driver.Str.handle c
+  else if fam.startsWith "sl." then Driver.Slice.handle c
+  else if fam.startsWith "sp." then Driver.Split.handle c
   else if fam == "find" || fam == "findlast" || fam == "contains" || fam == "starts" || fam == "ends" || fam == "blk.search" then Driver.Search.handle c
   else if fam == "scmp" || fam == "scmpnull" || fam == "bcmp" || fam == "bcmpnull" || fam == "rawcmp" || fam == "bigcmp" || fam == "casemap" || fam == "tri" || fam == "blk.scmp" || fam == "blk.bcmp" || fam == "blk.tri" then Driver.Compare.handle c
   else if fam.startsWith "num." || fam.startsWith "blk.num." then Driver.Num.handle c
